@@ -55,6 +55,8 @@ Inductive c06case :=
        (go_tomb go_min go_max : bytes) (go_marks : bool * bool)
 (* the same, keeping only the updated key and the ids parsed from it (bulk cube) *)
 | CKeyLite (i v c : N) (tk : bytes) (go_upd : res bytes) (go_ids : res (N * N * N))
+(* UpdateDataKey(copy of TombstoneKey(tk) under (i0, v0), i, v, c): the key stays a tombstone key *)
+| CUpdTomb (i0 v0 i v c : N) (tk : bytes) (go : res bytes) (go_istomb : bool) (go_ids : res (N * N * N)) (go_tk : res bytes)
 (* KeyRange, DataInstanceKeyRange, TKeyClassRange *)
 | CRange (i cls : N) (go_kr go_dikr go_tcr : bytes * bytes)
 (* parsers on arbitrary byte strings (None = nil slice); UpdateDataKey with ids (i, v, c) *)
@@ -221,6 +223,14 @@ Definition model_ok (c : c06case) : bool :=
     let upd := update_data_key (construct_data_key i v 0 tk) i v c in
     res_eqb bytes_eqb go_upd upd &&
     match upd with Ok k => res_eqb ids_eqb go_ids (data_key_to_local_ids k) | _ => true end
+  | CUpdTomb i0 v0 i v c tk go go_istomb go_ids go_tk =>
+    let upd := update_data_key (tombstone_key i0 v0 0 tk) i v c in
+    res_eqb bytes_eqb go upd &&
+    match upd with
+    | Ok k => Bool.eqb go_istomb (is_tombstone k) && res_eqb ids_eqb go_ids (data_key_to_local_ids k)
+              && res_eqb bytes_eqb go_tk (tkey_from_key (Some k))
+    | _ => true
+    end
   | CRange i cls go_kr go_dikr go_tcr =>
     pair_eqb go_kr (key_range_fixed i) && pair_eqb go_dikr (key_range_fixed i) &&
     pair_eqb go_tcr (tkey_class_range i cls)
@@ -402,6 +412,10 @@ Definition spec_class (c : c06case) : nat :=
   | CKeyLite i v c tk go_upd go_ids =>
     if is_panic go_upd || is_panic go_ids then 1%nat
     else if negb (res_eqb ids_eqb go_ids (Ok (i, v, c))) then 2%nat else 0%nat
+  | CUpdTomb i0 v0 i v c tk go go_istomb go_ids go_tk =>
+    if is_panic go || is_panic go_ids || is_panic go_tk then 1%nat
+    else if negb (go_istomb && res_eqb ids_eqb go_ids (Ok (i, v, c)) && res_eqb bytes_eqb go_tk (Ok tk)) then 2%nat
+    else 0%nat
   | CRange i cls go_kr go_dikr go_tcr => 0%nat
   | CParse _ _ _ _ _ _ _ _ => 0%nat
   | CTKey dt idx d go go_dec => 0%nat
